@@ -3,6 +3,7 @@
 package rules
 
 import (
+	"reflect"
 	"fmt"
 	"go/token"
 	"os"
@@ -20,6 +21,8 @@ type Ctx struct {
 	P    *core.Prog
 	R    *core.Result
 	Tier string
+	// borrowing: rule sets currently running (outermost first), see borrow
+	borrowing []uintptr
 }
 
 // PropFunc decides one property on one loaded variant.
@@ -72,7 +75,7 @@ func Run(id string, p *core.Prog, tier string) (res *core.Result) {
 		sort.Strings(names)
 		p.AliasConverted(names)
 	}
-	f(&Ctx{P: p, R: res, Tier: tier})
+	f(&Ctx{P: p, R: res, Tier: tier, borrowing: []uintptr{reflect.ValueOf(f).Pointer()}})
 	res.Finish()
 	return res
 }
@@ -149,8 +152,16 @@ func (c *Ctx) isNewHelper(f *ssa.Function, depth int) bool {
 // current property).  Used where one property's clause is decided by exactly
 // the construct another property already analyses.
 func (c *Ctx) borrow(f PropFunc, rename map[string]string) {
+	// properties borrow from each other in both directions (C09 <-> C19): a rule set that is already
+	// running further up is not entered again
+	id := reflect.ValueOf(f).Pointer()
+	for _, on := range c.borrowing {
+		if on == id {
+			return
+		}
+	}
 	sub := core.NewResult(c.R.Prop, c.P)
-	f(&Ctx{P: c.P, R: sub, Tier: c.Tier})
+	f(&Ctx{P: c.P, R: sub, Tier: c.Tier, borrowing: append(append([]uintptr{}, c.borrowing...), id)})
 	c.R.PathsSeen += sub.PathsSeen
 	n := 0
 	for _, o := range sub.Obs {
